@@ -11,6 +11,7 @@ R31c  tables: nesting limit 20 under LIMIT_SOFTFORK (len >= 20 -> SoftforkStackD
       cost_exempt <=> PreHardFork; extension table (NEW: 0,1 -> PreHardFork; classic: 0 -> Bls,
       1 -> Keccak; otherwise Default) and Default -> UnknownSoftforkExtension.
 """
+import re
 from lib import mir, patheff, flagregion as fr
 from lib.mir import strip, show, walk, compare_norm, show_norm
 from rules.c04 import pushes
@@ -44,12 +45,61 @@ def run(ctx):
             neg = strip(e)[0] == "un"
             E = (b, be[1] if neg else be[0], be[0] if neg else be[1])  # (block, exempt edge, non-exempt edge)
         n = compare_norm(e)
-        if n and n[2] in ("!=0", "==0") and n[1] == 0 and set(n[0]) == {"current_cost", "guard.expected_cost"}:
+        nd = compare_norm(eg.denamed(e))
+        if nd and nd[2] in ("!=0", "==0") and nd[1] == 0 and len(nd[0]) == 2 and "$2" in nd[0] and any(k.endswith(".expected_cost") for k in nd[0]):
             be = eg.bool_edges(b)
             mism, match = (be[0], be[1]) if n[2] == "!=0" else (be[1], be[0])
             N = (b, mism, match, n)
     ok = E is not None and N is not None
     det = {}
+    if not ok:
+        # the same predicate behind a private bool helper:  if !guard.accepts(cost) { Err(SoftforkCostMismatch) }
+        for b in sorted(reach):
+            if eg.term(b)["k"] != "switch" or eg.term(b).get("ty") != "bool":
+                continue
+            e = strip(eg.switch_cond(b))
+            neg = False
+            while e[0] == "un" and e[1] == "Not":
+                neg = not neg
+                e = strip(e[2])
+            if e[0] != "call" or e[1] not in cr.fns or cr.fns[e[1]].local_ty(0) != "bool":
+                continue
+            h = cr.fns[e[1]]
+            be = eg.bool_edges(b)
+            acc_edge, rej_edge = (be[1], be[0]) if neg else (be[0], be[1])
+            # arguments: (the guard, the current cost = parameter 2 of exit_guard)
+            a_cost = [strip(eg.expr_op(a, deep=False)) for a in eg.term(eg.defs(strip(eg.expr_op(eg.term(b)["on"], deep=False))[2])[0][0])["args"]] \
+                if False else None
+            call_args = [show(eg.denamed(x)) for x in e[2]]
+            # helper body: _0 = true under cost_exempt() == true, else _0 = (param == self.expected_cost)
+            rets = []
+            for hb in h.reachable_blocks():
+                for st in h.stmts(hb):
+                    if st.get("d") and st["d"]["l"] == 0 and not st["d"]["p"] and "rv" in st:
+                        conds = []
+                        for x in h.dominators(hb):
+                            if h.term(x)["k"] == "switch":
+                                hbe = h.bool_edges(x)
+                                if hbe:
+                                    c = show(h.denamed(h.switch_cond(x)))
+                                    edge = "T" if (hbe[0] == hb or h.dominates(hbe[0], hb)) else "F" if (hbe[1] == hb or h.dominates(hbe[1], hb)) else "-"
+                                    conds.append((c, edge))
+                        rets.append((show(h.denamed(h.expr_rvalue(st["rv"]))), conds))
+            good_h = sorted(r for r, _ in rets) == sorted(["1", "($2 Eq $1.expected_cost)"]) or sorted(r for r, _ in rets) == sorted(["true", "($2 Eq $1.expected_cost)"])
+            for r, conds in rets:
+                ex = [(c, e_) for c, e_ in conds if "cost_exempt" in c]
+                if r in ("1", "true"):
+                    good_h = good_h and ex and ex[0][1] == "T"
+                else:
+                    good_h = good_h and ex and ex[0][1] == "F"
+            det = {"helper": h.path, "helper returns": rets, "arguments": call_args}
+            okh = good_h and len(call_args) == 2 and call_args[1] == "$2" and eg.is_error_block(rej_edge) \
+                and eg.err_variants_from(rej_edge) == {"SoftforkCostMismatch"} and bool(okb) and all(eg.dominates(acc_edge, x) or acc_edge == x for x in okb)
+            ck.ob("R31a", RP + "exit_guard|cost equality", bool(okh),
+                  "success is reachable only when the guard's predicate holds: cost_exempt() or current cost == expected_cost (predicate in a private helper)",
+                  site=eg.where(b), detail=det)
+            ok = None
+            break
     if ok:
         det = {"mismatch_test": show_norm(N[3]), "mismatch_edge_errors": sorted(eg.err_variants_from(N[1]))}
         ok = (eg.is_error_block(N[1]) and eg.err_variants_from(N[1]) == {"SoftforkCostMismatch"}
@@ -57,9 +107,10 @@ def run(ctx):
               and eg.dominates(E[2], N[0])
               and not any(b in okb for b in eg.reach_from([E[2]], blocked={N[2]}))
               and bool(okb))
-    ck.ob("R31a", RP + "exit_guard|cost equality", ok,
-          "success is reachable only through `cost_exempt()` or through the equal edge of current_cost == guard.expected_cost",
-          site=eg.where(N[0]) if N else eg.where(0), detail=det)
+    if ok is not None:
+        ck.ob("R31a", RP + "exit_guard|cost equality", ok,
+              "success is reachable only through `cost_exempt()` or through the equal edge of current_cost == guard.expected_cost",
+              site=eg.where(N[0]) if N else eg.where(0), detail=det)
 
     # R31b path effects
     be = {}
@@ -70,8 +121,9 @@ def run(ctx):
     for b, t in eg.calls():
         c = t.get("callee") or ""
         if c == "allocator::Allocator::restore_checkpoint":
-            arg = show(eg.expr_op(t["args"][1], deep=False))
-            add(b, "restore" if "guard.allocator_state" in arg else "restore-other")
+            # the popped guard record's own checkpoint (by provenance: field allocator_state of the value popped from softfork_stack)
+            arg = show(eg.denamed(eg.expr_op(t["args"][1])))
+            add(b, "restore" if re.search(r"pop\(&mut \$1\.softfork_stack\).*\)\.allocator_state$", arg) else "restore-other")
         elif c == "allocator::Allocator::restore_transparent_checkpoint":
             add(b, "restore-other")
         elif c == RP + "pop":
@@ -123,15 +175,22 @@ def run(ctx):
         okl = cp[0] in ("call", "named") and "Allocator::checkpoint(" in show(cp) and "transparent" not in show(cp)
     ck.ob("R31b", RP + "apply_op|guard record", okl, "the guard records a FULL allocator checkpoint taken at entry",
           site=ap.where(lits[0][0]) if lits else ap.where(0), detail=det)
-    # expected cost of a non-exempt guard = current_cost + declared cost
-    ec = ap.local_by_name("expected_cost")
+    # expected cost of a non-exempt guard = current_cost + declared cost: read from the guard record's field (no local names)
     forms = []
-    for l in ec:
-        for s in ap.defs(l):
-            forms.append(show(ap.expr_rvalue(ap.def_rvalue(s), deep=False)))
-    okf = any(f == "(current_cost Add expected_cost)" for f in forms)
-    ck.ob("R31b", RP + "apply_op|expected cost", okf, "a non-exempt guard expects current_cost + declared cost at exit",
-          site=ap.where(0), detail=forms)
+    if lits:
+        b, fields = lits[0]
+        e = fields.get("expected_cost")
+        src = strip(e) if e is not None else None
+        ls = [x[2] for x in walk(src) if x[0] in ("var", "named")] if src is not None else []
+        for l in ls[:1]:
+            for s_ in ap.defs(l):
+                if s_[1] != "T":
+                    forms.append(show(ap.denamed(ap.expr_rvalue(ap.def_rvalue(s_)))))
+        if not ls and src is not None:
+            forms.append(show(ap.denamed(src)))
+    okf = any(f.startswith("($2 Add ") and "uint_atom" in f and "first(" in f for f in forms)
+    ck.ob("R31b", RP + "apply_op|expected cost", okf, "a non-exempt guard expects current_cost + declared cost (uint_atom of the first argument) at exit",
+          site=ap.where(0), detail=[f[:160] for f in forms])
     sp = [(b, m) for b, m, a in pushes(ap, "softfork_stack") if m == "push"]
     gp = [(b, a) for b, m, a in pushes(ap, "op_stack") if m == "push" and a and "ExitGuard" in show(a[0])]
     evs = [b for b, t in ap.calls_to(RP + "eval_pair") if sp and b in ap.reach_from([sp[0][0]])]
@@ -142,7 +201,18 @@ def run(ctx):
           site=ap.where(sp[0][0]) if sp else ap.where(0), detail={"guard pushes": len(sp), "ExitGuard pushes": len(gp)})
     rp = cr.fn(RP + "run_program")
     egc = rp.calls_to(RP + "exit_guard")
-    okr = len(egc) == 1 and show(rp.expr_op(egc[0][1]["args"][1], deep=False)) == "cost"
+    # the running cost = the local returned in the cost slot of Ok(Reduction(cost, ..))
+    rp.status()
+    cost_l = None
+    for b in rp.reachable_blocks():
+        if rp._last_ret.get(b) == "OK":
+            for st in rp.stmts(b):
+                if st.get("d") and st["d"]["l"] == 0 and "rv" in st:
+                    for x in walk(rp.expr_rvalue(st["rv"], deep=False)):
+                        if x[0] == "agg" and x[1].endswith("Reduction") and x[2] and strip(x[2][0])[0] in ("var", "named"):
+                            cost_l = strip(x[2][0])[2]
+    arg1 = strip(rp.expr_op(egc[0][1]["args"][1], deep=False)) if len(egc) == 1 else None
+    okr = arg1 is not None and arg1[0] in ("var", "named") and arg1[2] == cost_l and cost_l is not None
     ck.ob("R31b", RP + "run_program|ExitGuard step", okr, "the ExitGuard step passes the running cost to exit_guard",
           site=rp.where(egc[0][0]) if egc else rp.where(0))
 
@@ -187,26 +257,59 @@ def run(ctx):
     # extension table
     se = cr.fn("<chia_dialect::ChiaDialect as dialect::Dialect>::softfork_extension")
     ck.analysed(se)
-    tests = [t for t in fr.flag_tests(se) if t["flag"] == "NEW_COST_MODEL"]
+    # path enumeration (the function is loop-free): every path is labelled with what it assumed about NEW_COST_MODEL and about
+    # the extension number, and ends in one OperatorSet variant; the table is read off the paths, whatever the nesting order
+    ftests = {t["block"]: t for t in fr.flag_tests(se) if t["flag"] == "NEW_COST_MODEL"}
     table = {}
-    if len(tests) == 1:
-        t = tests[0]
-        for model, edge in (("new", t["set_edge"]), ("classic", t["clear_edge"])):
-            for b in se.reach_from([edge]):
-                tm = se.term(b)
-                if tm["k"] == "switch" and tm.get("ty") == "u32":
-                    for tgt, v in se.succ(b):
-                        res = set()
-                        for bb in se.reach_from([tgt]):
-                            for st in se.stmts(bb):
-                                if st.get("d") and st["d"]["l"] == 0:
-                                    e = strip(se.expr_rvalue(st["rv"]))
-                                    if e[0] == "agg":
-                                        res.add(e[1].split("::")[-1])
-                            if res:
-                                break
-                        table[(model, v)] = sorted(res)
-                    break
+    paths = []
+
+    def ext_switch(bk):
+        tm = se.term(bk)
+        if tm["k"] != "switch" or tm.get("ty") != "u32":
+            return False
+        e = strip(se.expr_op(tm["on"]))
+        return any(x[0] == "var" and x[2] == 2 for x in walk(e))
+
+    def walk_paths(bk, ncm, ext, result, depth=0):
+        if depth > 60:
+            return
+        for st in se.stmts(bk):
+            if st.get("d") and st["d"]["l"] == 0 and "rv" in st:
+                e = strip(se.expr_rvalue(st["rv"]))
+                if e[0] == "agg":
+                    result = e[1].split("::")[-1]
+        tm = se.term(bk)
+        if tm["k"] == "return":
+            paths.append((ncm, ext, result))
+            return
+        if bk in ftests:
+            t_ = ftests[bk]
+            walk_paths(t_["set_edge"], True, ext, result, depth + 1)
+            walk_paths(t_["clear_edge"], False, ext, result, depth + 1)
+            return
+        if ext_switch(bk):
+            listed = [v for _, v in se.succ(bk) if v != "otherwise"]
+            for tgt, v in se.succ(bk):
+                walk_paths(tgt, ncm, v if v != "otherwise" else ("not", tuple(sorted(listed))), result, depth + 1)
+            return
+        for tgt, _ in se.succ(bk):
+            walk_paths(tgt, ncm, ext, result, depth + 1)
+    walk_paths(0, None, None, None)
+    for model, mname in ((True, "new"), (False, "classic")):
+        for extv in (0, 1, "otherwise"):
+            res = set()
+            for ncm, ext, result in paths:
+                if ncm is not None and ncm != model:
+                    continue
+                if ext is None:
+                    pass
+                elif isinstance(ext, tuple):
+                    if extv != "otherwise" and extv in ext[1]:
+                        continue
+                elif extv == "otherwise" or ext != extv:
+                    continue
+                res.add(result)
+            table[(mname, extv)] = sorted(x for x in res if x)
     want = {("new", 0): ["PreHardFork"], ("new", 1): ["PreHardFork"], ("new", "otherwise"): ["Default"],
             ("classic", 0): ["Bls"], ("classic", 1): ["Keccak"], ("classic", "otherwise"): ["Default"]}
     ck.ob("R31c", se.path, table == want, "extension table: new model 0,1 -> PreHardFork; classic 0 -> Bls, 1 -> Keccak; otherwise Default",
